@@ -8,6 +8,10 @@ TRUSTED_COMMON = [
 ]
 
 FAMILY_ASSUMPTIONS = {
+    "memattrs": [
+        "explicit small states: one attribute, <= 4 targets / initiators with arbitrary values, cache marked valid (refresh is not run); strcmp/strdup/realloc as modelled by cbmc",
+        "not decided: store/lookup semantics of set_value/get_value, initiator matching by cpuset, convenience attributes, local NUMA node queries, refresh/restrict/dup/XML",
+    ],
     "cpukinds": [
         "the bitmap functions are replaced by the exact set operations on an 8-PU universe (/verif/include/cpukinds.model.h; one PU per Venn region of <= 3 disjoint kinds and one new set); the real implementations are verified for arbitrary widths under C03",
         "bounded: at most 3 existing kinds, empty info lists; allocation failure of hwloc_bitmap_alloc is not modelled (cpukinds.c does not check it)",
